@@ -16,9 +16,9 @@ RULE = ("cases = a base object (term, list, contract, compound contract) on smal
         "non-trivial = the base has >= 1 term and at least one derived object is an edit (not only copies); distinct = SHA-1 of the case")
 ASSUMPTIONS = ["permutations of inputs/outputs/terms are checked for coherence only (eq => equal hash, symmetry), not for a particular answer"]
 
-EDITS_CONTRACT = ["copy", "copy", "inplace-simplify", "move-input-to-output", "hash-then-rename", "replace-input", "replace-output", "add-output", "coef", "const-a", "const-g", "drop-g", "perm-inputs",
+EDITS_CONTRACT = ["copy", "copy", "inplace-simplify", "move-input-to-output", "hash-then-rename", "replace-input", "replace-output", "add-output", "coef", "coef-tiny", "const-a", "const-g", "drop-g", "perm-inputs",
                   "perm-outputs", "perm-terms", "roundtrip-dict", "roundtrip-str", "neg-zero", "var-order"]
-EDITS_TERMS = ["copy", "coef", "const", "neg-zero", "var-order", "parsed", "perm-terms", "drop-term", "hash-then-rename"]
+EDITS_TERMS = ["copy", "coef", "coef-tiny", "const-tiny", "const", "neg-zero", "var-order", "parsed", "perm-terms", "drop-term", "hash-then-rename"]
 
 
 @st.composite
@@ -62,6 +62,14 @@ def _edit_terms(ts, edit, pick, delta):
         return ts, True
     if edit == "const":
         ts[i][1] = ts[i][1] + delta
+        return ts, True
+    if edit == "coef-tiny":
+        # a different number that a tolerance-based comparison would take for the same one
+        v = sorted(ts[i][0])[pick % len(ts[i][0])]
+        ts[i][0][v] = ts[i][0][v] * (1 + 4e-6)
+        return ts, True
+    if edit == "const-tiny":
+        ts[i][1] = ts[i][1] * (1 + 4e-6) if ts[i][1] != 0 else 4e-9
         return ts, True
     if edit == "neg-zero":
         if ts[i][1] == 0:
@@ -137,7 +145,7 @@ def _edit_contract(d, edit, pick, delta, compound):
             d["g"][0][0][1] += abs(delta) + 1
             return d, None
         return d, False
-    if edit in ("const-a", "const-g", "coef", "drop-g", "perm-terms", "neg-zero", "var-order"):
+    if edit in ("const-a", "const-g", "coef", "coef-tiny", "drop-g", "perm-terms", "neg-zero", "var-order"):
         key = "a" if edit == "const-a" else "g"
         if not d[key]:
             return d, False
